@@ -71,11 +71,7 @@ def run(ctx):
                     'frame at an earlier location), so a payload can be overwritten before it is read', line=w.line, detail='read-after-inplace-write')
         else:
             ctx.bad('FLOW-C42b', fn, 'the payload written for a frame is not the payload read for that frame id', line=w.line, detail='payload-identity')
-        act = None
-        for c, rel in lib.guards_holding_at(fn, w.bb):
-            if rel == '==' and ((c.sa().has_field('Frame', 'status') and 'FrameStatus::Active' in c.sb().aggs) or
-                                (c.sb().has_field('Frame', 'status') and 'FrameStatus::Active' in c.sa().aggs)):
-                act = c
+        act = lib.holds_variant_at(fn, w.bb, 'Frame', 'status', 'FrameStatus', 'Active')
         if act:
             ctx.ok('FLOW-C42b', fn, 'payload rewritten only on the status == Active edge', line=w.line)
         else:
